@@ -309,6 +309,37 @@ def chuck_StoppingCommand(ebp, line):
         raise ProcessorError(args[1])
 
 
+# Verification hook: when PKGCORE_VERIF_TRACE names a file, every protocol line the
+# processor writes to or reads from the daemon is appended to it (one JSON object
+# per line, numbered per process).  Inactive, and free, when the variable is unset.
+_verif_trace_seq = [0]
+
+
+def _verif_trace(ebp, direction, data):
+    path = os.environ.get("PKGCORE_VERIF_TRACE")
+    if not path:
+        return
+    import json
+
+    _verif_trace_seq[0] += 1
+    try:
+        with open(path, "a") as f:
+            f.write(
+                json.dumps(
+                    {
+                        "seq": _verif_trace_seq[0],
+                        "ebp": id(ebp),
+                        "pid": ebp.pid or 0,
+                        "dir": direction,
+                        "data": data,
+                    }
+                )
+                + "\n"
+            )
+    except OSError:
+        pass
+
+
 class EbuildProcessor:
     """Abstraction of a running ebd instance.
 
@@ -492,6 +523,7 @@ class EbuildProcessor:
             if append_newline and string != "\n":
                 string += "\n"
             self.ebd_write.write(string)
+            _verif_trace(self, "w", string)
             if flush:
                 self.ebd_write.flush()
         except OSError as ie:
@@ -542,6 +574,7 @@ class EbuildProcessor:
         mydata = []
         while lines > 0:
             mydata.append(self.ebd_read.readline().decode())
+            _verif_trace(self, "r", mydata[-1])
             cmd, _, args_str = mydata[-1].strip().partition(" ")
             if cmd == "SIGINT":
                 chuck_KeyboardInterrupt(self, args_str)
@@ -881,6 +914,7 @@ class EbuildProcessor:
                 raise InternalError(line, "Returned size wasn't an integer")
             # This is a raw transfer, for obvious reasons.
             environ.append(self.ebd_read.read(int(line)).decode())
+            _verif_trace(self, "raw", environ[-1])
 
         self._run_depend_like_phase(
             "gen_ebuild_env",
